@@ -409,7 +409,8 @@ def atoms_of(o):
         # a superset of the results is fine unless the extra one may be unbound at the new function's return
         # (at module level the new function's name is a fresh local whatever the module binds)
         if v in shapes and v not in q["results"] and v not in sig[0] and not shapes[v]["dw"] and \
-                (base["scope"] == "module" or not shapes[v]["da"]):
+                (base["scope"] == "module" or not shapes[v]["da"]) and \
+                v not in [sh["v"] for sh in miss_p]:      # (already named as a left-out parameter)
             k = dict(base)
             k.update(role="extra-result-unbound-at-return", first=shapes[v]["fi"], first_at=shapes[v]["fin"],
                      after=shapes[v]["fa"])
